@@ -12,6 +12,7 @@ from c07 import OPLIB, INPUTS, build, tree_nodes, node_has, resolve
 
 NEEDS = ["Heap", "Values", "ValuesProofs", "Mutation", "MutationProofs", "Corr"]
 GUARD = "no_state_carry"
+GUARD_E = "no_derive_edit"
 STEP = 0.125
 
 # ---------------------------------------------------------------------------------------------- impl side (worker)
@@ -151,6 +152,18 @@ def impl(case):
             outs.append({"count": len(c.collect_edges())})
         elif k == "collect_edges_delay":
             outs.append({"count": len(c.collect_edges(delay_info=True))})
+        elif k == "derive_edit":
+            # a template derived WITHOUT new edges and without in_place, then an edge update on the derived template
+            if depth == 0:
+                first = next(iter(c.nodes))
+                d = c.update_template(nodes={"E": c.get_node_template(first)})
+            else:
+                d = c.update_template(circuits={"cE": next(iter(c.circuits.values()))})
+            try:
+                d.update_var(edge_vars=[(o[1], o[2], {"weight": float(Fr(o[3]))})])
+                outs.append("done")
+            except KeyError:
+                outs.append("raised")
         elif k == "load_derived":
             # loading a template whose `base:` is one of the cached templates: base.update_template(**yaml dict)
             from pyrates.frontend.template import from_yaml
@@ -286,6 +299,10 @@ def gen_case(rng, maxlen):
             seq.append(["deepcopy"])
         elif r < 0.6:
             seq.append(["op_update", rng.choice(oplist)])
+        elif r < 0.69 and r >= 0.67:
+            es = circs[root]["edges"]
+            e = rng.choice(es) if es and rng.random() < 0.85 else ["A/op/x", "Z/op/u", "1"]
+            seq.append(["derive_edit", e[0], e[1], pos8(rng)])
         elif r < 0.67:
             ns = ["/".join(p) for p, _ in allnodes]
             seq.append(["update_template", [[rng.choice(ns) + "/op/x", rng.choice(ns) + "/op/u", pos8(rng)]]])
@@ -321,28 +338,30 @@ def nontrivial(case):
 # ---------------------------------------------------------------------------------------------- model side
 import re as _re
 
-def fixed_switch():
-    """the one-line switch of Mutation.v (`Definition fixed_state_carry : bool := ...`), overridable by VERIF_C14_FIXED=1/0:
-    true = the checked tree carries the proposed state-carry repair, the guard no_state_carry is dropped"""
-    env = os.environ.get("VERIF_C14_FIXED")
-    if env is not None:
-        return env.strip() in ("1", "true")
+def _switch(name, env):
+    """a one-line switch of Mutation.v (`Definition <name> : bool := ...`), overridable by the environment variable"""
+    v = os.environ.get(env)
+    if v is not None:
+        return v.strip() in ("1", "true")
     txt = open(os.path.join(COQ, "theories", "Mutation.v")).read()
-    return _re.search(r"Definition fixed_state_carry : bool := (true|false)\.", txt).group(1) == "true"
+    return _re.search(r"Definition %s : bool := (true|false)\." % name, txt).group(1) == "true"
 
 
-FIXED = fixed_switch()
+FIXED = _switch("fixed_state_carry", "VERIF_C14_FIXED")              # fix D74 (true on the current tree)
+FIXED_E = _switch("fixed_shared_edge_dicts", "VERIF_C14_EDGES_FIXED")  # proposed_fix_C14_shared_edge_dicts
 HEADER = """From Coq Require Import List String ZArith QArith Qcanon Bool.
 From PV Require Import Heap Values Mutation Corr.
 Import ListNotations.
 Definition fixed : bool := %s.
+Definition fixed_e : bool := %s.
 Definition ccase := (nat * id * heap * list string * list mop * list pymout)%%type.
-Definition okI (c : ccase) := let '(d, r, h, inputs, ops, pys) := c in mouts_ok inputs (snd (mrun_gen fixed d r (h, book0) ops)) pys.
+Definition okI (c : ccase) := let '(d, r, h, inputs, ops, pys) := c in mouts_ok inputs (snd (mrun_gen fixed fixed_e d r (h, book0) ops)) pys.
 Definition okS (c : ccase) := let '(d, r, h, inputs, ops, pys) := c in
   match abs d h r with Some t => mouts_ok inputs (map (mstepS d t) ops) pys | None => false end.
 Definition guard (c : ccase) := let '(d, r, h, inputs, ops, pys) := c in orb fixed (no_state_carry ops).
+Definition guard_e (c : ccase) := let '(d, r, h, inputs, ops, pys) := c in orb fixed_e (no_derive_edit ops).
 Definition wf (c : ccase) := let '(d, r, h, inputs, ops, pys) := c in match abs d h r with Some t => true | None => false end.
-""" % ("true" if FIXED else "false")
+""" % ("true" if FIXED else "false", "true" if FIXED_E else "false")
 
 
 def coq_case(case, outs):
@@ -359,6 +378,9 @@ def coq_case(case, outs):
         elif k in ("get_node_template", "getitem"):
             ops.append(f"MRead (QNodeTemplate {cpath(o[1])})")
             pys.append("PNodeOps None" if r["ops"] is None else "PNodeOps (Some " + clist([cstr(x) for x in r["ops"]]) + ")")
+        elif k == "derive_edit":
+            ops.append(f"MDeriveEdit {cstr(o[1])} {cstr(o[2])} [({cstr('weight')}, {c07.cval(o[3])})]")
+            pys.append("PDone'" if r == "done" else "PRaised'")
         elif k in ("op_update", "load_derived"):
             ops.append(f"MNewObject (OOp {cstr(o[1] + '_derived')} [] [])"); pys.append("PDone'")
         elif k in ("get_edges", "collect_edges", "collect_edges_delay"):
@@ -383,17 +405,20 @@ def coq_case(case, outs):
 
 
 def model_compare(ctx, cases, outs, tag):
-    badI, badS, gfalse, ill = [], [], [], []
+    badI, badS, gfalse, ill, gefalse = [], [], [], [], []
     shard = 25
     for s in range(0, len(cases), shard):
         c07.TAB.__init__()
         terms = [coq_case(c, o) for c, o in zip(cases[s:s + shard], outs[s:s + shard])]
         body = (c07.TAB.defs() + "Definition cases : list ccase := " + clist(terms) + ".\n"
                 "Eval vm_compute in (mismatches okI cases).\nEval vm_compute in (mismatches okS cases).\n"
-                "Eval vm_compute in (mismatches guard cases).\nEval vm_compute in (mismatches wf cases).\n")
+                "Eval vm_compute in (mismatches guard cases).\nEval vm_compute in (mismatches wf cases).\n"
+                "Eval vm_compute in (mismatches guard_e cases).\n")
         ls = parse_nat_lists(coq_eval(ctx, f"c14_{tag}_{s}", HEADER, body))
-        assert len(ls) == 4, ls
+        assert len(ls) == 5, ls
         badI += [s + i for i in ls[0]]; badS += [s + i for i in ls[1]]; gfalse += [s + i for i in ls[2]]; ill += [s + i for i in ls[3]]
+        gefalse += [s + i for i in ls[4]]
+    model_compare.guard_e_false = gefalse
     return badI, badS, gfalse, ill
 
 
@@ -408,7 +433,7 @@ def model_outputs(ctx, case, outs, tag):
     c07.TAB.__init__()
     term = coq_case(case, outs)
     body = (c07.TAB.defs() + f"Definition c : ccase := {term}.\n"
-            "Eval vm_compute in (let '(d, r, h, inputs, ops, pys) := c in snd (mrun_gen fixed d r (h, book0) ops)).\n")
+            "Eval vm_compute in (let '(d, r, h, inputs, ops, pys) := c in snd (mrun_gen fixed fixed_e d r (h, book0) ops)).\n")
     try:
         return coq_eval(ctx, f"c14_show_{tag}", HEADER, body)[:6000]
     except Exception as e:
@@ -450,19 +475,23 @@ def check(ctx):
     good = [i for i in range(len(cases)) if i not in crashed]
     badI, badS, gfalse, ill = model_compare(ctx, [cases[i] for i in good], [outs[i] for i in good], "main")
     badI = [good[i] for i in badI]; badS = [good[i] for i in badS]; gfalse = [good[i] for i in gfalse]
+    gefalse = [good[i] for i in model_compare.guard_e_false]
     assert not ill, f"generator produced an ill-formed store: {ill[:5]}"
     side = [i for i in good if side_checks(cases[i], outs[i])]
-    badS = sorted(set(badS) | set(side)); badI = sorted(set(badI) | set(side))
-    if FIXED:
-        ctx.note("state-carry repair switch is ON: Impl = mrun_gen true, guard no_state_carry dropped")
+    # a derive-and-edit sequence changes the base's edge weight (the model predicts it): the dump text changes with it
+    badS = sorted(set(badS) | set(side)); badI = sorted(set(badI) | (set(side) - set(gefalse)))
+    ctx.note(f"switches: fixed_state_carry={FIXED} (guard no_state_carry {'dropped' if FIXED else 'active'}), "
+             f"fixed_shared_edge_dicts={FIXED_E} (guard no_derive_edit {'dropped' if FIXED_E else 'active'})")
+    gany = sorted(set(gfalse) | set(gefalse))
     ctx.note(f"E1: {len(cases)} sequences, {sum(len(c['seq']) for c in cases)} operations; impl-vs-Impl mismatches {len(badI)}, "
-             f"impl-vs-Spec mismatches {len(badS)} (of which outside the guard no_state_carry: {len([i for i in badS if i in gfalse])}), "
-             f"to_yaml-text / own-edge-list changes {len(side)}, harness/worker errors {len(crashed)}; sequences outside the guard: {len(gfalse)}")
+             f"impl-vs-Spec mismatches {len(badS)} (of which outside a guard: {len([i for i in badS if i in gany])}), "
+             f"to_yaml-text / own-edge-list changes {len(side)}, harness/worker errors {len(crashed)}; sequences outside the guards: "
+             f"no_state_carry {len(gfalse)}, no_derive_edit {len(gefalse)}")
     def witness_check(f):
         w = json.load(open(os.path.join(VERIF, f["witness"])))
         return fails(ctx, w, "wit")[0]
     conclude(ctx, cases=cases, impl_out=outs, bad_spec=badS, bad_impl=badI, crashed=crashed, problem=problem,
-             guard_viol={i: [GUARD] for i in gfalse},
+             guard_viol={i: ([GUARD] if i in gfalse else []) + ([GUARD_E] if i in gefalse else []) for i in gany},
              spec_name="Mutation.mstepS (every operation is a function of the unchanged denotation)", impl_name="Mutation.mrun",
              shrink=lambda c: shrink(ctx, c), witness_check=witness_check,
              show=lambda c: (lambda r: dict(implementation_output=[x if not (isinstance(x, dict) and "keys" in x) else dict(x, keys=f"({len(x['keys'])} values)", pairs=x["pairs"]) for x in r] if isinstance(r, list) else r,
@@ -474,7 +503,7 @@ def check(ctx):
             kinds[o[0]] = kinds.get(o[0], 0) + 1
     write_evidence(ctx, evaluations=len(cases), distinct_nontrivial=len(nt),
                    rule="random sequences of get_nodes / get_node_template / __getitem__ / get_edges / collect_edges (also delay_info=True) / get_edge / to_yaml / "
-                        "deepcopy / update_template(edges) / OperatorTemplate.update_template(equations) / loading a derived template (base: chain) from YAML / get_run_func / get_jacobian_func / run (in_place=False, both vectorize settings) on templates of depth 0-2 "
+                        "deepcopy / update_template(edges) / derive-and-edit (update_template(nodes|circuits) without edges, then an edge update on the derived template) / OperatorTemplate.update_template(equations) / loading a derived template (base: chain) from YAML / get_run_func / get_jacobian_func / run (in_place=False, both vectorize settings) on templates of depth 0-2 "
                         "with one OperatorTemplate object per name (constants partly declared in explicit dict form), shared NodeTemplate objects, per-node overrides and (20%) shared sub-circuit objects; "
                         "the template is measured (deep copy with cleared bookkeeping: parameter values, declared initial values, edge sums, to_yaml text, "
                         "own edge count) before, between and after; non-trivial = >= 2 operations and (a shared object or a hierarchy); distinct = canonical JSON",
